@@ -1,6 +1,7 @@
 package recovery
 
 import (
+	"strings"
 	"time"
 
 	"github.com/Vedant9500/WTF/internal/database"
@@ -63,6 +64,10 @@ func c15RunF(mainStates, personalStates []int, maxAttemptsHi int, symbolicDelays
 	ps := personalStates[verifIntRange("personal", 0, len(personalStates)-1)]
 	mainEntries := c15Entries("m", verifIntRange("mainEntries", 0, 2))
 	persEntries := c15Entries("p", verifIntRange("personalEntries", 0, 1))
+	if len(mainEntries) > 0 && len(persEntries) > 0 && verifBool("notebookRepeatsMain") {
+		// a notebook entry whose command text is a main entry's, in other letter case
+		persEntries[0].Command = strings.ToUpper(mainEntries[0].Command)
+	}
 	if ms == c15Blank {
 		mainEntries = nil
 	}
@@ -195,4 +200,35 @@ func VerifHarness_C15_LadderGrid() {
 	c15FactorGrid = []float64{1, 1.5, 2, 1e3, 1e6, 1e9}
 	c15RunF([]int{c15Garbage, c15Missing}, []int{c15Missing}, 4, false, false)
 	c15FactorGrid = nil
+}
+
+// one recovery object serving several loads (a long-lived process): each load stands alone
+func VerifHarness_C15_TwoLoads() {
+	root := verifFSRoot()
+	mainPath, personalPath := root+"/db/commands.yml", root+"/cfg/personal.yml"
+	cfg := RetryConfig{MaxAttempts: verifIntRange("maxAttempts", 1, 3), BaseDelay: time.Millisecond, MaxDelay: 4 * time.Millisecond, BackoffFactor: 2}
+	dr := NewDatabaseRecovery(cfg)
+	first := []int{c15Garbage, c15Missing, c15OK}[verifIntRange("first", 0, 2)]
+	c15Put(mainPath, first, c15Entries("m", 2), 1)
+	db1, err1 := dr.LoadDatabaseWithFallback(mainPath, personalPath)
+	verifAssert(db1 != nil && err1 == nil && len(db1.Commands) > 0, "C15: loading always ends with a database and no error")
+	// the file is repaired (or stays as it was); the same object loads again
+	if verifBool("repaired") {
+		verifFSPutDoc(mainPath, "yaml", c15Entries("m", 2))
+		first = c15OK
+	}
+	loads := verifIntRange("moreLoads", 1, 3)
+	for k := 0; k < loads; k++ {
+		db2, err2 := dr.LoadDatabaseWithFallback(mainPath, personalPath)
+		verifAssert(db2 != nil && err2 == nil, "C15: loading always ends with a database and no error (a later load through the same recovery object)")
+		if db2 == nil {
+			return
+		}
+		if first == c15OK {
+			verifAssert(len(db2.Commands) == 2 && db2.Commands[0].Command == "ma", "C15: the real database is used whenever it loads (a later load)")
+		} else {
+			verifAssert(len(db2.Commands) > 0, "C15: the built-in fallback is not empty")
+		}
+	}
+	verifReach("loaded")
 }
